@@ -611,12 +611,16 @@ fn guarded(ix: usize, e: usize, cfg: usize, d: &Data, lx: usize) -> Result<EOut,
     // Deadline in CPU time of the child (robust against a loaded machine: a fit of these sizes needs
     // well under 5 ms of CPU, a non-terminating one burns CPU continuously), with a wall-clock fallback.
     let pid = srv.child.id();
-    let cpu0 = cpu_ms(pid).unwrap_or(0);
+    // (a failed reading of the start value must not turn the child's whole CPU history into "burnt")
+    let cpu0 = cpu_ms(pid);
     let t0 = std::time::Instant::now();
     let answer = loop {
         match srv.rx.recv_timeout(std::time::Duration::from_millis(20)) {
             Err(std::sync::mpsc::RecvTimeoutError::Timeout) => {
-                let burnt = cpu_ms(pid).map(|c| c.saturating_sub(cpu0)).unwrap_or(0);
+                let burnt = match (cpu0, cpu_ms(pid)) {
+                    (Some(a), Some(b)) => b.saturating_sub(a),
+                    _ => 0,
+                };
                 if burnt >= PROBE_DEADLINE_MS || t0.elapsed().as_millis() as u64 >= 40 * PROBE_DEADLINE_MS {
                     break Err(std::sync::mpsc::RecvTimeoutError::Timeout);
                 }
